@@ -301,3 +301,5 @@ def run(ck, facts, tier):
     ck.assumptions = ["position bookkeeping inside rio_turtle/rio_xml/json-ld is not decided",
                       "a Result handed to another function or stored is considered delivered"]
     ck.trusted = ["rustc MIR (types of call destinations, resolved callees)"]
+    import witness
+    witness.apply(ck, "C15")
